@@ -241,9 +241,15 @@ Proof.
     apply (@ex_RInt_continuous R_CompleteNormedModule). intros z _. apply exp_sq_cont.
 Qed.
 
-(** Erfi(x) = 2/sqrt(pi) * exp(x^2) * Dawson_Integral(x), with pi the real number pi *)
+(** Erfi(x) = 2/sqrt(pi) * h * Dawson_Integral(x) * h with h = exp(x^2/2) (two halves, so that the intermediate
+    products stay finite as long as erfi(x) does), which over the reals is 2/sqrt(pi) * exp(x^2) * Dawson_Integral(x),
+    with pi the real number pi *)
 Lemma erfi_model x : erfi ROps PI x = 2 / sqrt PI * exp (x * x) * dawson ROps x.
-Proof. reflexivity. Qed.
+Proof.
+  unfold erfi. cbn [nexp nmul ndiv nsqrt nofZ ndec ROps].
+  replace (exp (x * x)) with (exp (1 / 2 * x * x) * exp (1 / 2 * x * x)) by (rewrite <- exp_plus; f_equal; field).
+  ring.
+Qed.
 
 (** ... which is erfi(x) = 2/sqrt(pi) int_0^x exp(t^2) dt whenever Dawson_Integral returns Dawson's integral;
     in general the relative error of Erfi equals the relative error of Dawson_Integral *)
